@@ -51,6 +51,8 @@ package server
 //@ func (s *Server) checkAcme(ctx context.Context, hostname string, proof *protocol.ProofOfWork, token *protocol.ClientToken, client *protocol.Node) (found bool, err error)
 //@   safety off
 //@   opt frame=off
+//@   requires s.Chord != nil
+//@   ensures read-only: s.Chord.kvWrites == old(s.Chord.kvWrites)
 //@   ghost perr error = nil
 //@   ghost looked bool = false
 //@   ghost ferr error = nil
@@ -103,6 +105,7 @@ package server
 //@ func (s *Server) getCertificate(ctx context.Context, proof *protocol.ProofOfWork, hostname string) (cert *tls.Certificate, err error)
 //@   safety off
 //@   opt frame=off
+//@   requires s.Chord != nil
 //@   ghost aerr error = nil
 //@   ghost nerr error = nil
 //@   ghost cerr error = nil
@@ -121,7 +124,7 @@ package server
 //@ func (s *Server) Sign(ctx context.Context, req *protocol.KeylessSignRequest) (resp *protocol.KeylessSignResponse, err error)
 //@   safety off
 //@   opt frame=off
-//@   requires req != nil
+//@   requires req != nil && s.Chord != nil
 //@   ghost gerr error = nil
 //@   ghost signed bool = false
 //@   at after call getCertificate#1: ghost gerr := callresult1
